@@ -1010,6 +1010,7 @@ static void ZSTDMT_releaseAllJobResources(ZSTDMT_CCtx* mtctx)
     }
     mtctx->inBuff.buffer = g_nullBuffer;
     mtctx->inBuff.filled = 0;
+    mtctx->jobReady = 0;   /* a job prepared but not yet posted has just been erased */
     mtctx->allJobsCompleted = 1;
 }
 
